@@ -672,7 +672,6 @@ where
                     match tokio::spawn(f(b)).await {
                         Ok(tr) => lines.extend(tr.buf),
                         Err(e) => {
-                            lines.push(json!({"ev": "reset", "id": id, "cfg": "-", "conc": 0, "cell": {}, "root0": "-"}).to_string());
                             lines.push(json!({"ev": "panic", "id": id, "msg": format!("{e}")}).to_string());
                         }
                     }
